@@ -99,6 +99,7 @@ struct sc {
 
 struct rec {
 	int recorded, counted;
+	int cfr_fd; /* copy_file_range: output descriptor (-1 otherwise) */
 	long seq;
 	const char *name;
 	int len;
@@ -112,6 +113,8 @@ struct tstate {
 	int held;              /* stopped at entry, queued for the gate */
 	int have_pending;      /* recorded call in flight (owns the gate) */
 	int fail_pending;      /* MODE_FAIL: this call was turned into a no-op, its result is forged at the exit stop */
+	int cfr_open;          /* the thread's previous counted call was a copy_file_range ... */
+	int cfr_fd;            /* ... onto this descriptor */
 	struct rec pending;
 };
 
@@ -563,6 +566,7 @@ static void decode(struct tstate *t, const struct sc *s, struct rec *r)
 	pid_t tid = t->tid;
 	const unsigned long *a = s->a;
 	r->recorded = r->counted = 0;
+	r->cfr_fd = -1;
 	r->seq = 0;
 	r->name = NULL;
 	r->len = 0;
@@ -752,6 +756,7 @@ static void decode(struct tstate *t, const struct sc *s, struct rec *r)
 			if (fd_path(tid, (int)a[0], p) == 0)
 				ap_path(r, "inpath", p);
 			ap(r, " len=%lu", a[4]);
+			r->cfr_fd = (int)a[2];
 			done(r, "copy_file_range", 1);
 		}
 		break;
@@ -864,6 +869,17 @@ static void do_kill(struct tstate *t, const struct rec *r)
 /* t is stopped at the entry of recorded call r and the gate is free */
 static void admit(struct tstate *t, struct rec *r)
 {
+	/* A copy loop (Go's io.Copy between two files) issues copy_file_range until it returns 0; whether the data goes
+	 * in one call plus a terminating empty one, or in one call alone, varies from run to run. The calls of one loop
+	 * count as ONE kill point (the first): the later ones are traced uncounted, so indices stay stable. */
+	if (r->counted && r->cfr_fd >= 0) {
+		if (t->cfr_open && t->cfr_fd == r->cfr_fd)
+			r->counted = 0;
+		t->cfr_open = 1;
+		t->cfr_fd = r->cfr_fd;
+	} else if (r->counted) {
+		t->cfr_open = 0;
+	}
 	if (r->counted) {
 		r->seq = ++counter;
 		if (mode == MODE_KILL && r->seq == kill_k)
